@@ -486,6 +486,12 @@ def plan(tier, seed):
                     if n == 0 and lib in ("Mul", "GT", "And") and k in (0, 2, 3, 4):
                         rq = "quick"
                     hs.append(gen_bin_l2_reject(lib, t, k, rq))
+                if n > 0:
+                    # further L2 kinds of the same dispatch function: same generator, kept out of the registered tiers for wall-clock
+                    # reasons (28 harnesses of ~1 min per operator and kind); VERIF_ALL=1 runs them
+                    for h_ in hs[-(len(FORM_PAIRS) + len(REJECT_SHAPES)):]:
+                        h_.tier = "off"
+                        h_.off_reason = "not part of the registered tiers (wall-clock budget): further element kind of an L2 family that is run for its first kind"
     return {
         "harnesses": hs,
         "extracted": extracted,
